@@ -21,7 +21,7 @@ package nut04
 //@   ensures @unknown [C20] state != "UNPAID" && state != "PAID" && state != "ISSUED" && state != "PENDING" ==> result == Unknown
 
 // what is marshalled for a quote response: every field copied, the state as its NUT-04 string
-//@ struct tempQuote [C20] Quote Request Amount Unit State Expiry Pubkey
+//@ struct nut04.tempQuote [C20] Quote Request Amount Unit State Expiry Pubkey
 //@ func (*PostMintQuoteBolt11Response).MarshalJSON
 //@   tags C20
 //@   safety C06 C20
